@@ -603,7 +603,7 @@ func c14Verdicts(c *core.Ctx) {
 		}
 		ok := len(args) >= 2 && ssax.AnyIn(ssax.Backward(args[1]), isMsgLoad)
 		// the original msg parameter must not be what is delivered
-		direct := len(args) >= 2 && len(sw.Params) >= 2 && args[1] == ssa.Value(sw.Params[1])
+		direct := len(args) >= 2 && len(sw.Params) >= 2 && args[1] == ssa.Value(paramOf(sw, 1))
 		c.Check(ok && !direct, "C14.R4", fmt.Sprintf("sendWillLocked|uses-req.Message|deliverMessage#%d", i), ipos(c, e.Instr), "delivers req.Message", "sendWillLocked delivers the original will message, not the one returned by OnWillPublish (req.Message)")
 		if len(args) >= 3 {
 			// the iteration options (topic) derive from req.Message as well
